@@ -62,14 +62,18 @@ theorem C11_kernel_absolute (absMin absMax r : Int) :
       absToAbs absMin (absClamp 0 (absRelMax absMax absMin)
         (if r < 0 then absFromEnd (absRelMax absMax absMin) r else r)) := by
   unfold clampRel absToAbs absClamp absRelMax absFromEnd
-  rfl
+  first
+    | rfl
+    | (simp only []; split <;> omega)
 
 /-- the same step in `get_relative_piece_indexes`, with `max_piece_index = floor((size-1)/piece_size)` -/
 theorem C11_kernel_relative (fileSize L : Nat) (r : Int) :
     clampRel (floorDiv ((fileSize : Int) - 1) L) r =
       relClamp 0 (relMax fileSize L) (if r < 0 then relFromEnd (relMax fileSize L) r else r) := by
   unfold clampRel relClamp relMax relFromEnd floorDiv
-  rfl
+  first
+    | rfl
+    | (simp only []; split <;> omega)
 
 
 /-! ### Loop kernels: whole functions translated from the source
@@ -397,7 +401,7 @@ local macro "clamp_arith" : tactic =>
     `acc` and the clamped rest -/
 private theorem relative_inv (rels0 : List Int) (sz L lo mx mx' : Int) (h0 : lo = 0) (hm : mx = mx') :
     ∀ (rest acc : List Int),
-      relativePieceIndexesFn.loop rels0 sz L lo mx rest acc =
+      relativePieceIndexesFn.loop sz mx lo L rels0 rest acc =
         .ret (sortedSet (acc ++ rest.map (fun r => clampRel mx' r)))
   | [], acc => by simp [relativePieceIndexesFn.loop]
   | r :: rest, acc => by
@@ -414,7 +418,7 @@ theorem C11_kernel_loop_relative_piece_indexes (sizes : List Int) (L fileSize : 
     relativePieceIndexesFn sizes rels fileSize L = .ret (getRelativePieceIndexes L fileSize rels) := by
   unfold relativePieceIndexesFn getRelativePieceIndexes
   simp only []
-  rw [relative_inv rels _ _ _ _ (floorDiv ((fileSize : Int) - 1) L) (by first | rfl | omega)
+  rw [relative_inv _ _ _ _ _ (floorDiv ((fileSize : Int) - 1) L) (by first | rfl | omega)
     (by first | rfl | (unfold floorDiv; congr 1; omega))]
   simp [sortedSet_eq]
 
@@ -422,7 +426,7 @@ theorem C11_kernel_loop_relative_piece_indexes (sizes : List Int) (L fileSize : 
 private theorem absolute_inv (file : Nat) (rels0 : List Int) (sz L : Int) (fpi : List Int)
     (amin amax lo mx amin' mx' : Int) (h0 : lo = 0) (ha : amin = amin') (hm : mx = mx') :
     ∀ (rest acc : List Int),
-      absolutePieceIndexesFn.loop file rels0 sz L fpi amin amax lo mx rest acc =
+      absolutePieceIndexesFn.loop file fpi sz amax amin mx lo L rels0 rest acc =
         .ret (sortedSet (acc ++ rest.map (fun r => amin' + clampRel mx' r)))
   | [], acc => by simp [absolutePieceIndexesFn.loop]
   | r :: rest, acc => by
